@@ -425,9 +425,28 @@ func (w *World) begin(name, path string) (op *Op, flt *Fault, ok bool) {
 			// another process appends to a file behind the program's back
 			op.Fault = "extern"
 			w.FiredSeq = append(w.FiredSeq, op.Seq)
-			if n := w.Peek(ff.Path); n != nil && n.Kind == KFile {
-				n.Data = append(append([]byte(nil), n.Data...), ff.Data...)
-				w.touch(n)
+			switch ff.Errno {
+			case "REMOVE":
+				// ... removes it
+				if r, e := w.resolve(ff.Path, false); e == 0 && r.parent != nil && r.node != nil {
+					r.parent.delChild(r.name)
+					w.touch(r.parent)
+				}
+			case "PARENT-TO-FILE":
+				// ... replaces the directory it lives in by a plain file
+				if r, e := w.resolve(cleanPath(ff.Path+"/.."), false); e == 0 && r.parent != nil && r.node != nil && r.node.Kind == KDir {
+					nf := w.newInode(KFile, 0o644)
+					nf.Data = []byte("no longer a directory\n")
+					r.parent.delChild(r.name)
+					r.parent.addChild(r.name, nf)
+					w.touch(r.parent)
+				}
+			default:
+				// ... appends to it
+				if n := w.Peek(ff.Path); n != nil && n.Kind == KFile {
+					n.Data = append(append([]byte(nil), n.Data...), ff.Data...)
+					w.touch(n)
+				}
 			}
 			return op, nil, true
 		}
